@@ -42,4 +42,73 @@ theorem listed_nodes_scanned :
 /-- non-vacuity: the table is not empty and does contain nodes with compiled expressions and with allowed fields -/
 example : facts.length ≥ 10 ∧ facts.any (fun f => !f.exprFields.isEmpty) ∧ facts.any (fun f => !f.mutated.isEmpty) := by decide
 
+/-! ### every lambda-bearing node has a generated variant whose lambda holds a STATEFUL function
+
+`lambdaFields` is regenerated from pipeline/*.go, `harnessKinds` from the harness source. For each lambda field the
+table names the node chains of the harness that exercise it, each with the exact text that must occur in the chain's
+TICKscript (the lambda of THAT property starting with / containing a stateful function), on the stream side and —
+where the node has one — behind a window on the batch side; or an explicit reason why the field is not generated.
+A new lambda-bearing pipeline node, or a harness chain that loses its stateful function, makes the theorem false. -/
+
+inductive Cover where
+  | chains (stream batch : List (String × String))   -- (harness kind, required script text)
+  | excluded (why : String)
+
+def statefulCoverage : List ((String × String) × Cover) := [
+  (("AlertNodeData", "Crit"), .chains [("alertgt", ".crit(lambda: count()"), ("alertmod", ".crit(lambda: count()")]
+                                       [("winalertcount", ".crit(lambda: count()")]),
+  (("AlertNodeData", "Warn"), .chains [("alertsigma", ".warn(lambda: sigma("), ("alertlevelsfn", ".warn(lambda: spread(")] []),
+  (("AlertNodeData", "Info"), .chains [("alertlevelsfn", ".info(lambda: count()")] []),
+  (("AlertNodeData", "InfoReset"), .chains [("alertlevelsfn", ".infoReset(lambda: count()")] []),
+  (("AlertNodeData", "WarnReset"), .chains [("alertreset", ".warnReset(lambda: count()")] []),
+  (("AlertNodeData", "CritReset"), .chains [("alertreset", ".critReset(lambda: count()")] []),
+  (("CombineNode", "Lambdas"), .chains [("combinefn", "|combine(lambda: count()")] []),
+  (("EvalNode", "Lambdas"), .chains [("evalcount", "|eval(lambda: count()"), ("evalsigma", "|eval(lambda: sigma("),
+                                      ("evalspread", "|eval(lambda: spread("), ("eval2", ", lambda: count()")]
+                                     [("wineval", "|eval(lambda: count()")]),
+  (("StateCountNode", "Lambda"), .chains [("statecountfn", "|stateCount(lambda: count()"), ("statecountsigma", "|stateCount(lambda: sigma(")]
+                                          [("winstatecountfn", "|stateCount(lambda: count()")]),
+  (("StateDurationNode", "Lambda"), .chains [("statedurationfn", "|stateDuration(lambda: count()"), ("statedurspread", "|stateDuration(lambda: spread(")]
+                                             [("winstatedurfn", "|stateDuration(lambda: count()")]),
+  (("WhereNode", "Lambda"), .chains [("wherecount", "|where(lambda: count()"), ("wheresigma", "|where(lambda: sigma(")]
+                                     [("winwhere", "|where(lambda: count()")]),
+  (("FromNode", "Lambda"), .excluded "from().where() is evaluated before a point has a group (FromNode is no grouped receiver): its expression state is per task by construction, not per-group state"),
+  (("Ec2AutoscaleNode", "Replicas"), .excluded "needs an EC2 autoscaling service; the scan shows AutoscaleNode.replicasExpr is used through CopyReset only"),
+  (("K8sAutoscaleNode", "Replicas"), .excluded "needs a Kubernetes service; the scan shows AutoscaleNode.replicasExpr is used through CopyReset only"),
+  (("SwarmAutoscaleNode", "Replicas"), .excluded "needs a Docker Swarm service; the scan shows AutoscaleNode.replicasExpr is used through CopyReset only")
+]
+
+def isPrefixL : List Char → List Char → Bool
+  | [], _ => true
+  | _ :: _, [] => false
+  | a :: as, b :: bs => a == b && isPrefixL as bs
+
+def occursL (n : List Char) : List Char → Bool
+  | [] => n.isEmpty
+  | h :: t => isPrefixL n (h :: t) || occursL n t
+
+def chainOk (c : String × String) : Bool :=
+  let kind := c.1.toList
+  let text := c.2.toList
+  harnessKindsL.any (fun k => k.1 == kind && occursL text k.2) &&
+  (occursL "count()".toList text || occursL "sigma(".toList text || occursL "spread(".toList text)
+
+def fieldCovered (f : String × String) : Bool :=
+  match statefulCoverage.lookup f with
+  | some (.chains st ba) => !st.isEmpty && st.all chainOk && ba.all chainOk
+  | some (.excluded _) => true
+  | none => false
+
+set_option maxRecDepth 100000 in
+/-- **Every expression-bearing node kind is generated with a stateful function in its lambda** (or is explicitly
+excluded with a reason), over the regenerated lists. -/
+theorem every_lambda_field_has_a_stateful_variant : lambdaFields.all fieldCovered = true := by decide
+
+/-- the nodes with a batch side all have a batch-side stateful variant -/
+theorem batch_side_stateful_variants :
+    [("AlertNodeData", "Crit"), ("EvalNode", "Lambdas"), ("StateCountNode", "Lambda"), ("StateDurationNode", "Lambda"),
+     ("WhereNode", "Lambda")].all (fun f => match statefulCoverage.lookup f with
+       | some (.chains _ ba) => !ba.isEmpty
+       | _ => false) = true := by decide
+
 end Kap.Props.C06Scan
